@@ -83,4 +83,44 @@ namespace vh
         auto b = front_once(kind, text, files);
         return a + (a == b ? " det=1" : " det=0 second=" + b);
     }
+
+    // pp <text> [<files: name \x02 content, separated by \x01>]
+    //   the text is /main.sqf of a scratch directory mapped to /, the files lie beside it.
+    //   -> "ok <hex of the whole output, scratch directory written /$R>" | "fail <codes of the error-level diagnostics>"
+    //   followed by " warn=<codes of the warnings>"
+    inline std::string verb_pp(const std::vector<std::string>& f)
+    {
+        namespace fs = std::filesystem;
+        std::string text = f.size() > 0 ? f[0] : std::string();
+        std::vector<std::string> files;
+        if (f.size() > 1 && !f[1].empty()) { files = split(f[1], '\x01'); }
+        auto v = make_vm(regmode::real);
+        fs::path dir = fs::path("/var/tmp/sqfvm-verif/pp-scratch") / std::to_string((long)getpid());
+        fs::remove_all(dir);
+        fs::create_directories(dir);
+        for (auto& e : files)
+        {
+            auto kv = split(e, '\x02');
+            if (kv.size() < 2) { continue; }
+            fs::path p = dir / kv[0];
+            fs::create_directories(p.parent_path());
+            std::ofstream o(p, std::ios::binary);
+            o.write(kv[1].data(), (std::streamsize)kv[1].size());
+        }
+        { std::ofstream o(dir / "main.sqf", std::ios::binary); o.write(text.data(), (std::streamsize)text.size()); }
+        v.rt->fileio().add_mapping(dir.string(), "/");
+        auto res = v.rt->parser_preprocessor().preprocess(*v.rt, text, sqf::runtime::fileio::pathinfo((dir / "main.sqf").string(), std::string("/main.sqf")));
+        fs::remove_all(dir);
+        std::string warn;
+        for (auto& e : v.logger->entries)
+        {
+            if (e.level == (int)loglevel::warning) { if (!warn.empty()) { warn.push_back(','); } warn += std::to_string(e.code); }
+        }
+        if (!res.has_value()) { return "fail " + v.logger->codes((int)loglevel::error) + " warn=" + warn; }
+        std::string payload = *res;
+        size_t pos;
+        std::string root = dir.string();
+        while ((pos = payload.find(root)) != std::string::npos) { payload.replace(pos, root.size(), "/$R"); }
+        return "ok " + hex_of(payload) + " warn=" + warn;
+    }
 }
